@@ -333,3 +333,6 @@ def run(chk, S: Session):
 
     rb = chk.rule("R-C04-B", "clauses of this statement decided by rules of C03 (calibrated covariances: every part of the returned posterior is rescaled)", floor=4)
     borrow(chk, S, rb, "C03", lambda r, c: r == "R-C03-3" or (r == "R-C03-1" and ("finalize" in c or "rescale" in c)))
+    rb2 = chk.rule("R-C04-B2", "the base case of the equivariance argument decided by rules of C09: every prior's stored noise factor is linear in the base output scale (factories, transitions) and the "
+                   "convenience constructors forward the caller's output_scale unchanged", floor=20)
+    borrow(chk, S, rb2, "C09", lambda r, c: r in ("R-C09-4", "R-C09-8") or (r == "R-C09-5" and "forwards" in c))
